@@ -60,3 +60,18 @@ MANIFEST_TEXT["C03"] = {
     "level_note": "Trusted: the reference evaluator (sql.rs) and the capability probe rule. Known engine defects are diagnosed on the minimal failing statement and listed in known_findings.jsonl.",
     "technique": "runtime differential monitor against a reference SQL evaluator, with statement shrinking and panic/hang monitors",
 }
+
+META["C04"] = {
+    "level": "exploration",
+    "rule": "Tables with grouping keys of controlled cardinality (1, 2, 10, 255, 256, 300, >65 535; negative and wide ranges; nullable; strings of low/high cardinality; floats) and int/float value columns, 1-6 partitions whose key sets are equal / disjoint / interleaved, optional unflushed tail and cold disk reads. Statements: 0-3 grouping expressions (columns, c/10, c%7) + 1-3 aggregates out of COUNT/SUM/MIN/MAX/AVG, optional simple WHERE, optional ORDER BY over all exact select items + LIMIT. One evaluation = one statement compared as a multiset of groups (or key sequence with tie groups when ordered) with the reference group-by; T-FLOATSUM/T-AVG apply. Distinct non-trivial = distinct (keys, aggregates, clauses, group-count bucket, partition count, partition relation, grouping strategy read from the executed plan) with >= 2 groups on which engine and reference agree. Disagreements are shrunk, then classified by a decision list (all-NULL aggregate input, column absent from a partition, ORDER BY on groups, number and kind of keys).",
+    "budget": {"quick": 100, "thorough": 1200},
+    "relfast": True,
+    "floors": {"quick": {"evaluations": 1500, "distinct": 150, "counters": {"multi_group_agree": 200, "groups_over_65535_agree": 1}}},
+    "assumptions": COMMON_ASSUMPTIONS + TOL,
+}
+MANIFEST_TEXT["C04"] = {
+    "level_text": "Differential monitor: generated grouped statements run on the real engine over 1-6 partitions with equal / disjoint / interleaved key sets and are compared, group by group, with a reference group-by (NULL as its own group, aggregates ignoring NULL, exact i128 sums). Cardinalities straddle the 256 and 65 536 thresholds; the grouping strategy actually executed is read from the plan. Large parts of multi-key / nullable-key grouping are known-defective in the engine and are classified as known findings, so the live assurance is strongest for group-less and single non-null key statements.",
+    "design_ref": "DESIGN.md section 3, C04",
+    "level_note": "Trusted: reference evaluator and tolerances. Known-finding classes are coarse for multi-key grouping (see DESIGN.md, Findings).",
+    "technique": "runtime differential monitor (multiset of groups vs reference group-by) with shrinking, decision-list diagnosis, panic/hang monitors",
+}
